@@ -75,9 +75,12 @@ def build_harness():
         dst = os.path.join(HARNESS, "go.sum")
         with open(src, "rb") as f:
             data = f.read()
-        if not os.path.exists(dst) or open(dst, "rb").read() != data:
+        have = open(dst, "rb").read() if os.path.exists(dst) else b""
+        merged = sorted(set(have.split(b"\n")) | set(data.split(b"\n")))
+        merged = b"\n".join(x for x in merged if x) + b"\n"
+        if merged != have:
             with open(dst, "wb") as f:
-                f.write(data)
+                f.write(merged)
         for out, pkg in ((HARNESS_BIN, "."), (EXTRACT_BIN, "./extract")):
             if not os.path.isdir(os.path.join(HARNESS, pkg)):
                 continue
